@@ -63,6 +63,14 @@ fn hostile_request(ch: &mut Ch, paths: &[Vec<Vec<u8>>], mid: u16) -> HostileReq 
             }
         }
     }
+    // Size1 / Size2 announcements, small and huge
+    if ch.chance(1, 6, "h.size1") {
+        let v = *ch.pick(&[0u32, 16, 4096, 70_000, 10_000_000], "h.size1.v");
+        p.add_option(CoapOption::Size1, crate::refparse::uint_bytes(v as u64));
+    }
+    if ch.chance(1, 12, "h.size2") {
+        p.add_option(CoapOption::Size2, crate::refparse::uint_bytes(*ch.pick(&[0u32, 16, 100_000], "h.size2.v") as u64));
+    }
     let mut has_block = false;
     let mut block = |ch: &mut Ch, p: &mut Packet, opt: CoapOption, has_block: &mut bool| match ch.weighted(&[40, 45, 15], "h.block.kind") {
         0 => {}
